@@ -335,6 +335,14 @@ func (c *Ctx) keysOfSummary(fn *ssa.Function) (string, bool) {
 		return "", false
 	}
 	cacheField := ""
+	// wrapper (e.g. a locking front of the cache function): returns callee(recv) on every path
+	if len(rets) == 1 && len(rets[0].Results) == 1 {
+		if call, ok := core.RetVal(rets[0], 0).(*ssa.Call); ok && !call.Call.IsInvoke() && len(call.Call.Args) == 1 && call.Call.Args[0] == ssa.Value(fn.Params[0]) {
+			if cs := c.M.Callees(&call.Call); len(cs) == 1 && cs[0] != fn {
+				return c.keysOfSummary(cs[0])
+			}
+		}
+	}
 	for _, r := range rets {
 		if len(r.Results) != 1 {
 			return "", false
